@@ -167,18 +167,35 @@ def model_extents(sc: Scan) -> T.Optional[T.Dict[str, T.List[T.Tuple[int, int]]]
 
 # -- classifiers for the known-defect classes (all computed on the text, before the oracle looks at the result) -----------
 
+_CLEAN_UNARY_PREV_OPS = frozenset(['(', '[', '{', ',', ':', '=', '+=', '?', '==', '!=', '<', '>', '<=', '>=', '+', '*', '/', '%'])
+_CLEAN_UNARY_PREV_KW = frozenset(['and', 'or', 'if', 'elif', 'in'])
+
+
 def cls_dangling_not(sc: Scan) -> bool:
+    """a `not` that is not followed by `in` and does not stand where a unary `not` may start an operand (start of a
+    statement, after an opener, a separator, or a binary operator).  Over-approximates the defect class (e.g. `a - not b`)."""
     sig = sc.sig
     for i, t in enumerate(sig):
-        if t[0] == 'kw' and t[1] == 'not' and i > 0 and _is_operand_end(sig[i - 1]):
+        if t[0] == 'kw' and t[1] == 'not':
             nxt = sig[i + 1] if i + 1 < len(sig) else None
-            if nxt is None or not (nxt[0] == 'kw' and nxt[1] == 'in'):
-                return True
+            if nxt is not None and nxt[0] == 'kw' and nxt[1] == 'in':
+                continue
+            if i == 0:
+                continue
+            p = sig[i - 1]
+            if p[0] == 'eol' or (p[0] == 'op' and p[1] in _CLEAN_UNARY_PREV_OPS) or (p[0] == 'kw' and p[1] in _CLEAN_UNARY_PREV_KW):
+                continue
+            return True
     return False
 
 
 def cls_newline_in_plain_string(sc: Scan) -> bool:
     return any(t[0] in ('str', 'fstr') and '\n' in t[1] for t in sc.toks)
+
+
+def cls_eof_after_multiline_string(sc: Scan) -> bool:
+    """the text ends with a '''...''' token that contains a newline (an error raised at end of input is then mis-located)"""
+    return bool(sc.toks) and sc.complete and sc.toks[-1][0] in ('mstr', 'mfstr') and '\n' in sc.toks[-1][1]
 
 
 def cls_positional_after_kwarg(sc: Scan) -> bool:
@@ -334,6 +351,16 @@ EX_BIGNUM = 'class: number literal longer than %d characters (finding crash/Valu
 EX_EMPTYKEY = "class: dict literal key containing an empty operand (finding crash/TypeError:unhashable-EmptyNode) - input skipped"
 
 
+EX_EOFML = "class: error at end of input right after a multi-line '''string''' (finding reject/location-outside-text:eof-after-multiline-string) - location clause skipped"
+
+
+def _naive_eof(text: str, sc: Scan) -> T.Tuple[int, int]:
+    """the (line, column) one gets by adding the length of the last token to its start column"""
+    k, v, s, e = sc.toks[-1]
+    line = text.count('\n', 0, s) + 1
+    return line, s - (text.rfind('\n', 0, s) + 1) + (e - s)
+
+
 def _case(text: str, **kw: T.Any) -> dict:
     d: T.Dict[str, T.Any] = {'text': text}
     d.update(kw)
@@ -425,6 +452,11 @@ def judge(text: str, known: bool = True, heavy: bool = True) -> Res:
                     r.excluded.append(EX_NLSTR)
                     return r
                 sig = 'position/newline-in-plain-string'
+            elif cls_eof_after_multiline_string(sc) and (ln, col) == _naive_eof(text, sc):
+                if known:
+                    r.excluded.append(EX_EOFML)
+                    return r
+                sig = 'reject/location-outside-text:eof-after-multiline-string'
             else:
                 sig = 'reject/location-outside-text'
             r.fail = Failure(sig, _case(text),
@@ -578,7 +610,7 @@ def selftest(ctx: Ctx) -> None:
     for k, v in want.items():
         if sorted(m[k]) != v:
             raise HarnessError(f'extent model self-test failed for {k}: {sorted(m[k])} != {v}')
-    for txt, fn, exp in [('x = a not\n', cls_dangling_not, True), ('x = a not in b\n', cls_dangling_not, False), ('x = not a\n', cls_dangling_not, False),
+    for txt, fn, exp in [('x = a not\n', cls_dangling_not, True), ('x = a not in b\n', cls_dangling_not, False), ('x = not a\n', cls_dangling_not, False), ('not not and', cls_dangling_not, True), ('x = [not a, b and not c]', cls_dangling_not, False),
                          ('f(a, b: 1, c)', cls_positional_after_kwarg, True), ('f(a, b: 1, c: 2)', cls_positional_after_kwarg, False),
                          ('f(a ? b : c, d)', cls_positional_after_kwarg, False), ('f(k: [1, 2], j: g(x, y))', cls_positional_after_kwarg, False),
                          ('{a: 1, b: 2}', cls_positional_after_kwarg, False), ('[a: 1, b]', cls_positional_after_kwarg, True),
@@ -716,14 +748,51 @@ OPENERS = [('(', ')'), ('[', ']'), ('{', '}'), ('f(', ')'), ('a.m(', ')'), ('[',
            ('foreach x : y\n', '\nendforeach\n'), ('if a\n', '\nelse\n'), ("'", "'"), ("'''", "'''"), ('(', ']'), ('', '')]
 
 
-def soup_strategy() -> T.Any:
-    from hypothesis import strategies as st
-    tok = st.one_of(st.sampled_from(SIGMA_FULL), st.sampled_from(SIGMA_FULL), st.sampled_from(SIGMA_Q), st.sampled_from(JUNK))
-    piece = st.builds(lambda t, s: t + s, tok, st.sampled_from(SEPS))
-    group = st.recursive(piece, lambda inner: st.builds(lambda o, items, s: o[0] + ''.join(items) + o[1] + s,
-                                                        st.sampled_from(OPENERS), st.lists(inner, max_size=6), st.sampled_from(SEPS)),
-                         max_leaves=40)
-    return st.lists(group, max_size=16).map(''.join)
+class Chooser:
+    """turns a flat list of integers (what Hypothesis generates and shrinks) into a sequence of choices; an exhausted
+    list always yields choice 0, which every builder below maps to its simplest alternative"""
+    __slots__ = ('data', 'i')
+
+    def __init__(self, data: T.Sequence[int]):
+        self.data = data
+        self.i = 0
+
+    def n(self, k: int) -> int:
+        if self.i >= len(self.data) or k <= 0:
+            return 0
+        v = self.data[self.i] % k
+        self.i += 1
+        return v
+
+    def pick(self, seq: T.Sequence[T.Any]) -> T.Any:
+        return seq[self.n(len(seq))]
+
+    @property
+    def left(self) -> int:
+        return len(self.data) - self.i
+
+
+SOUP_TOKENS = SIGMA_FULL + SIGMA_FULL + SIGMA_Q + JUNK
+
+
+def build_soup(data: T.Sequence[int]) -> str:
+    ch = Chooser(data)
+
+    def pieces(depth: int) -> str:
+        out = []
+        for _ in range(ch.n(7) + (1 if depth == 0 else 0)):
+            if ch.left <= 0:
+                break
+            if depth < 6 and ch.n(4) == 3:
+                o = ch.pick(OPENERS)
+                out.append(o[0] + pieces(depth + 1) + o[1] + ch.pick(SEPS))
+            else:
+                out.append(ch.pick(SOUP_TOKENS) + ch.pick(SEPS))
+        return ''.join(out)
+    out = []
+    while ch.left > 0:
+        out.append(pieces(0))
+    return ''.join(out)
 
 
 IDS = ['a', 'b', 'foo_1', 'x', 'meson', 'f']
@@ -732,54 +801,89 @@ ATOMS = ['a', 'b', 'foo_1', '1', '0', '42', '0x1F', '0b10', '0o17', "'s'", "''",
 BINOPS = ['+', '-', '*', '/', '%', '==', '!=', '<', '>', '<=', '>=', ' and ', ' or ', ' in ', ' not in ', ' not  in ']
 INNER_WS = ['', '', ' ', ' ', '\n', '\n  ', ' # c\n  ', ' \\\n ', '\t']
 OUTER_WS = ['', '', ' ', ' ', '  ', ' \\\n ', '\t']
+EOLS = ['\n', '\n', '\n', ' # t\n', '\n\n', ' \n', '\r\n']
+
+
+def build_program(data: T.Sequence[int]) -> str:
+    """grammar-directed generator (mostly valid programs; validity is NOT assumed by the oracle)"""
+    ch = Chooser(data)
+
+    def args(d: int) -> str:
+        iw = ch.pick(INNER_WS)
+        items = [ch.pick(INNER_WS) + expr(d) + iw for _ in range(ch.n(4))]
+        items += [f'{iw}{ch.pick(IDS)}{ch.pick(INNER_WS)}:{iw}{expr(d)}' for _ in range(ch.n(3))]
+        s = ','.join(items)
+        if items and ch.n(4) == 1:
+            s += ',' + ch.pick(INNER_WS)
+        return s
+
+    def expr(d: int) -> str:
+        k = ch.n(13) if d > 0 else 0
+        if k == 0 or ch.left <= 0:
+            return ch.pick(ATOMS)
+        d -= 1
+        ow = ch.pick(OUTER_WS)
+        if k in (1, 2):
+            return f'{expr(d)}{ow}{ch.pick(BINOPS)}{ow}{expr(d)}'
+        if k == 3:
+            return f'[{args(d)}]'
+        if k in (4, 5):
+            return f"{ch.pick(IDS)}{ch.pick(['', '', ' '])}({args(d)})"
+        if k == 6:
+            w = ch.pick(['', '', ' ', '\\\n'])
+            return f"{expr(d)}{w}.{w}{ch.pick(IDS)}{ch.pick(['', ' '])}({args(d)})"
+        if k == 7:
+            return f"{expr(d)}{ch.pick(['', '', ' '])}[{expr(d)}]"
+        if k == 8:
+            iw = ch.pick(INNER_WS)
+            return f'({iw}{expr(d)}{iw})'
+        if k == 9:
+            iw = ch.pick(INNER_WS)
+            return '{' + ','.join(f'{iw}{expr(d)}{ch.pick(INNER_WS)}:{iw}{expr(d)}' for _ in range(ch.n(4))) + iw + '}'
+        if k == 10:
+            return f'not {expr(d)}'
+        if k == 11:
+            return f'-{expr(d)}'
+        return f'{expr(d)}{ow}?{ow}{expr(d)}{ow}:{ow}{expr(d)}'
+
+    def body(d: int) -> str:
+        return ''.join(ch.pick(['', '  ', '\t']) + stmt(d) + ch.pick(EOLS) for _ in range(ch.n(4)))
+
+    def stmt(d: int) -> str:
+        k = ch.n(10)
+        if k <= 2 or ch.left <= 0:
+            return f"{ch.pick(IDS)}{ch.pick(OUTER_WS)}{ch.pick(['=', '=', '+='])}{ch.pick(OUTER_WS)}{expr(3)}"
+        if k <= 4:
+            return expr(3)
+        if k == 5:
+            return ch.pick(['continue', 'break', '', '# comment', '  # indented comment', '\\'])
+        if d <= 0:
+            return expr(2)
+        if k == 6:
+            return f'if {expr(2)}\n{body(d - 1)}endif'
+        if k == 7:
+            return f'if {expr(2)}\n{body(d - 1)}else\n{body(d - 1)}endif'
+        if k == 8:
+            return f'if {expr(2)}\n{body(d - 1)}elif {expr(2)}\n{body(d - 1)}endif'
+        ow = ch.pick(OUTER_WS)
+        return f"foreach {ch.pick(['x', 'k, v', 'k , v'])}{ow}:{ow}{expr(2)}\n{body(d - 1)}endforeach"
+
+    out = ch.pick(['', '', '\n', '# head\n', '  '])
+    first = True
+    while first or ch.left > 0:
+        first = False
+        out += stmt(2) + ch.pick(EOLS + [''])
+    return out
+
+
+def soup_strategy() -> T.Any:
+    from hypothesis import strategies as st
+    return st.lists(st.integers(0, 999), max_size=90).map(build_soup)
 
 
 def program_strategy() -> T.Any:
     from hypothesis import strategies as st
-    ident = st.sampled_from(IDS)
-    atom = st.sampled_from(ATOMS)
-    iw = st.sampled_from(INNER_WS)
-    ow = st.sampled_from(OUTER_WS)
-
-    def arglist(e: T.Any) -> T.Any:
-        pos = st.lists(st.builds(lambda w1, x, w2: w1 + x + w2, iw, e, iw), max_size=3)
-        kw = st.lists(st.builds(lambda w1, k, w2, v, w3: f'{w1}{k}{w2}:{w3}{v}', iw, ident, iw, e, iw), max_size=2)
-        return st.builds(lambda p, k, trail, w: ','.join(p + k) + ((',' + w) if (trail and (p or k)) else w), pos, kw, st.booleans(), iw)
-
-    def ext(e: T.Any) -> T.Any:
-        args = arglist(e)
-        return st.one_of(
-            st.builds(lambda a, w1, o, w2, b: f'{a}{w1}{o}{w2}{b}', e, ow, st.sampled_from(BINOPS), ow, e),
-            st.builds(lambda a: f'[{a}]', args),
-            st.builds(lambda f, w, a: f'{f}{w}({a})', ident, st.sampled_from(['', '', ' ']), args),
-            st.builds(lambda o, w1, m, w2, a: f'{o}{w1}.{w1}{m}{w2}({a})', e, st.sampled_from(['', '', ' ', '\\\n']), ident, st.sampled_from(['', ' ']), args),
-            st.builds(lambda o, w, i: f'{o}{w}[{i}]', e, st.sampled_from(['', '', ' ']), e),
-            st.builds(lambda w1, a, w2: f'({w1}{a}{w2})', iw, e, iw),
-            st.builds(lambda items, w: '{' + ','.join(items) + w + '}',
-                      st.lists(st.builds(lambda w1, k, w2, v: f'{w1}{k}{w2}:{w2}{v}', iw, e, iw, e), max_size=3), iw),
-            st.builds(lambda a: f'not {a}', e),
-            st.builds(lambda a: f'-{a}', e),
-            st.builds(lambda c, w, a, b: f'{c}{w}?{w}{a}{w}:{w}{b}', e, ow, e, e),
-        )
-    expr = st.recursive(atom, ext, max_leaves=10)
-    simple = st.one_of(
-        st.builds(lambda i, w1, op, w2, e: f'{i}{w1}{op}{w2}{e}', ident, ow, st.sampled_from(['=', '=', '+=']), ow, expr),
-        expr,
-        st.sampled_from(['continue', 'break', '', '# comment', '  # indented comment', '\\']),
-    )
-    eol = st.sampled_from(['\n', '\n', '\n', ' # t\n', '\n\n', ' \n', '\r\n'])
-
-    def block(inner: T.Any) -> T.Any:
-        body = st.lists(st.builds(lambda ind, s, e: ind + s + e, st.sampled_from(['', '  ', '\t']), inner, eol), max_size=3).map(''.join)
-        return st.one_of(
-            st.builds(lambda c, b1, b2, els: f'if {c}\n{b1}' + (f'else\n{b2}' if els else '') + 'endif', expr, body, body, st.booleans()),
-            st.builds(lambda c, b1, c2, b2: f'if {c}\n{b1}elif {c2}\n{b2}endif', expr, body, expr, body),
-            st.builds(lambda v, w, it, b: f'foreach {v}{w}:{w}{it}\n{b}endforeach', st.sampled_from(['x', 'k, v', 'k , v']), ow, expr, body),
-        )
-    stmt = st.recursive(simple, block, max_leaves=6)
-    return st.builds(lambda pre, lines, last: pre + ''.join(lines) + last,
-                     st.sampled_from(['', '', '\n', '# head\n', '  ']),
-                     st.lists(st.builds(lambda s, e: s + e, stmt, eol), max_size=5), stmt)
+    return st.lists(st.integers(0, 999), min_size=1, max_size=120).map(build_program)
 
 
 def text_strategy() -> T.Any:
@@ -992,6 +1096,7 @@ def probes() -> T.List[T.Tuple[str, str]]:
         ('crash/RecursionError:parse', 'x = ' + '[' * 200 + ']' * 200 + '\n'),
         ('crash/RecursionError:print', 'x = ' + '+'.join(['a'] * 600) + '\n'),
         ('crash/TypeError:unhashable-EmptyNode', '{-:1}\n'),
+        ('reject/location-outside-text:eof-after-multiline-string', "x = ['''a\nb'''"),
     ]
     if lim > 0:
         out.append(('crash/ValueError:int-digit-limit', 'x = ' + '1' * (lim + 1) + '\n'))
@@ -1138,6 +1243,18 @@ def run_atheris(ctx: Ctx, runs: int, jobs: int) -> None:
 
 # ---------------------------------------------------------------------------
 
+def _stage(ctx: Ctx, name: str) -> None:
+    """reporting only (never an oracle): wall and CPU seconds per stage"""
+    import resource
+    import time
+    now = time.time()
+    ru, rc = resource.getrusage(resource.RUSAGE_SELF), resource.getrusage(resource.RUSAGE_CHILDREN)
+    cpu = ru.ru_utime + ru.ru_stime + rc.ru_utime + rc.ru_stime
+    ctx.ev.extra.setdefault('stage_seconds', {})[name] = {'wall': round(now - getattr(ctx, '_c02_t', ctx.t0), 1),
+                                                          'cpu': round(cpu - getattr(ctx, '_c02_cpu', 0.0), 1)}
+    ctx._c02_t, ctx._c02_cpu = now, cpu   # type: ignore[attr-defined]
+
+
 def run(ctx: Ctx) -> None:
     # 0. the known findings: one enforced probe each
     for want, text in probes():
@@ -1149,10 +1266,12 @@ def run(ctx: Ctx) -> None:
             ctx.fail(r.fail)
         else:
             ctx.note(f'probe {want}: property holds on this tree (defect fixed?)')
+    _stage(ctx, 'probes')
     # (e) special classes
     nsp = len(special_cases())
     step = (nsp + 31) // 32
     pmap(ctx, _special_shard, [(lo, min(nsp, lo + step)) for lo in range(0, nsp, step)])
+    _stage(ctx, 'special')
     # (d) corpus verbatim
     nfiles = len(corpus())
     if nfiles < 100:
@@ -1160,6 +1279,7 @@ def run(ctx: Ctx) -> None:
     step = (nfiles + 63) // 64
     pmap(ctx, _verbatim_shard, [(lo, min(nfiles, lo + step)) for lo in range(0, nfiles, step)])
     ctx.ev.extra['corpus_files'] = nfiles
+    _stage(ctx, 'corpus_verbatim')
     # (a) exhaustive
     plans = [('q', 4), ('full', 3)] if ctx.quick else [('full', 4), ('s5', 5), ('s6', 6)]
     scale = float(os.environ.get('VERIF_SCALE', '1'))
@@ -1167,6 +1287,7 @@ def run(ctx: Ctx) -> None:
         plans = [(n, max(2, l - 1)) for n, l in plans]
     for name, maxlen in plans:
         pmap(ctx, _exh_shard, exhaustive_shards(name, maxlen))
+    _stage(ctx, 'exhaustive')
     ctx.exhaustive = True
     ctx.ev.extra['exhaustive_scope'] = ('token sequences: ' + ', '.join(f'all of length <= {l} over the {len(SIGMAS[n])}-token alphabet {n!r}' for n, l in plans) +
                                         ' (two renderings each) are enumerated completely; all other domains are sampled')
@@ -1176,12 +1297,15 @@ def run(ctx: Ctx) -> None:
     shards = [('soup', s, ctx.n(700, 9000)) for s in seeds[0:16]] + [('program', s, ctx.n(700, 9000)) for s in seeds[16:32]] + \
              [('text', s, ctx.n(300, 4000)) for s in seeds[32:40]]
     pmap(ctx, _hyp_shard, shards)
+    _stage(ctx, 'hypothesis_soup_program_text')
     pmap(ctx, _mutation_shard, [(s, ctx.n(700, 9000)) for s in seeds[40:56]])
+    _stage(ctx, 'corpus_mutation')
     # (f) atheris
     if not ctx.quick:
         run_atheris(ctx, ctx.n(150000, 150000), 8)
     else:
         ctx.ev.extra['atheris'] = 'thorough tier only'
+    _stage(ctx, 'atheris')
     ctx.ev.extra['enforced_extents'] = list(ENFORCED)
     ctx.ev.extra['evidence_only_extents'] = {k: ctx.ev.hist.get(f'extent_ok:{k}', 0) for k in ('method', 'dict', 'paren')}
     ctx.ev.extra['evidence_only_extent_mismatches'] = {k: ctx.ev.hist.get(f'extent_MISMATCH:{k}', 0) for k in ('method', 'dict', 'paren')}
